@@ -128,11 +128,20 @@ func runLargeBatch(rc *RunCtx) *RunResult {
 		ops = append(ops, q)
 		want[q.UniqueSuffix] = q
 		counts[q.Type]++
+
+		if i%500 == 0 {
+			Heartbeat()
+		}
 	}
 
 	k.Tr.Logf("large batch: %d operations (max %d): %v, CAS write %d fails", n, p.MaxOperationCount, counts, failAt)
 
+	Heartbeat()
+
 	info, err := v.Handler.PrepareTxnFiles(ops)
+
+	Heartbeat()
+
 	if err != nil && failAt >= 0 {
 		k.Tr.Logf("first attempt failed (%s); the same operations are handed in again", simkit.FirstLine(err.Error()))
 		info, err = v.Handler.PrepareTxnFiles(ops)
@@ -172,7 +181,12 @@ func runLargeBatch(rc *RunCtx) *RunResult {
 		return finish()
 	}
 
+	Heartbeat()
+
 	got, err := checker.GetTxnOperations(t)
+
+	Heartbeat()
+
 	if err != nil {
 		fail("readback/error", fmt.Sprintf("reading back txn with %d included operations failed: %v", n, err))
 
